@@ -111,6 +111,88 @@ def worker(task: Tuple[Any, ...]) -> Stats:
     return st
 
 
+# ------------------------------------------------------------------------------------------------------------------
+# per-holder totals exist only in the report: 'Account Balances' of '<asset> Tax' read back from rp2_full_report.ods
+
+
+def report_histories(tier: str) -> List[History]:
+    """Every node of depth <= 2, and every node of depth 3 (thorough: all; quick: those touching all three accounts,
+    where one holder's accounts are not adjacent in the report's account order)."""
+    tree = Tree(FIRST, SYMBOLS, STEPS, EXTRA)
+    out: List[History] = []
+    for depth in (1, 2, 3):
+        for root in tree.roots(depth):
+            for hist in tree.level(root, depth):
+                specs = H.materialize(hist)
+                if specs is None or MA.overdraft_verdict(specs)[0] != "must_accept":
+                    continue
+                touched = len({a for s in specs for a, _k, _v in MA.flows(s)})
+                if depth < 3 or touched >= 3 or tier == "thorough":
+                    out.append(hist)
+    return out
+
+
+def report_worker(chunk: List[History]) -> Stats:
+    from rp2verif import frdriver as D
+    from rp2verif import odsread as O
+    from rp2verif.seams import generator as G
+
+    st = Stats()
+    for hist in chunk:
+        specs = H.materialize(hist, uid=True)
+        if specs is None:
+            continue
+        matrix, specs2 = D.to_sheet(specs, "B1")
+        ev = sorted({parse_ts(s["timestamp"]).date() for s in specs})
+        for td in (None, ev[0]) if len(ev) > 1 else (None,):
+            case = {"assets": {"B1": specs2}, "sheets": {"B1": matrix}, "schedule": [(1970, "fifo")], "from": None, "to": td, "country": "us", "lang": "en",
+                    "reports": ["rp2_full_report"], "allow_negative": False}
+            st.inc("report_runs")
+            res = G.run(case)
+            base = {"history": H.hist_str(hist), "hist": hist, "specs": specs, "schedule": [(1970, "fifo")], "allow_negative": False, "to_date": str(td) if td else None, "report": True}
+            tag = f"rp2_full_report -t {td}: {H.hist_str(hist)}"
+            if res["error"]:
+                st.violation(dict(base, signature=f"C07 report: no report / {res['error'].split(':')[0]}", what=f"{tag} :: {res['stage']}: {res['error'][:200]}"))
+                continue
+            f = next(n for n in res["files"] if n.endswith("rp2_full_report.ods"))
+            rows = res["files"][f].get("B1 Tax") or []
+            hits = O.find_rows(rows, "Account Balances")
+            if len(hits) != 1:
+                st.violation(dict(base, signature="C07 report: no Account Balances table", what=f"{tag} :: table not found"))
+                continue
+            _s, idx = O.table_after(rows, hits[0], key_col=0)
+            want = MA.balances(specs, td)
+            got_acct = {(O.cell(rows, i, 0), O.cell(rows, i, 1)): i for i in idx if O.cell(rows, i, 0) != "Total"}
+            got_tot = {O.cell(rows, i, 1): O.cell(rows, i, 6) for i in idx if O.cell(rows, i, 0) == "Total"}
+            problems: List[str] = []
+            if sorted(got_acct) != sorted(want):
+                problems.append(f"account lines {sorted(got_acct)} != accounts with transactions {sorted(want)}")
+            for k, i in got_acct.items():
+                if k in want:
+                    for col, fld in ((3, "acquired"), (4, "sent"), (5, "received"), (6, "final")):
+                        if not O.close(O.cell(rows, i, col), want[k][fld]):
+                            problems.append(f"account {k}: {fld} balance {O.cell(rows, i, col)!r} != {float(want[k][fld])} from its transactions")
+            holders: Dict[str, Fraction] = {}
+            for (ex, ho), v in want.items():
+                holders[ho] = holders.get(ho, Fraction(0)) + v["final"]
+            if sorted(got_tot) != sorted(holders) or len([i for i in idx if O.cell(rows, i, 0) == "Total"]) != len(holders):
+                problems.append(f"holder totals for {sorted(got_tot)}, holders with accounts {sorted(holders)}")
+            for ho, v in holders.items():
+                if ho in got_tot and not O.close(got_tot[ho], v):
+                    problems.append(f"total of holder {ho} is {got_tot[ho]!r}; the holder's accounts add up to {float(v)}")
+            if len(holders) >= 2:
+                st.inc("report_multi_holder")
+            if problems:
+                st.violation(dict(base, signature=f"C07 report: {problems[0].split(' ')[0]} {problems[0].split(' ')[1]}", what=f"{tag} :: {problems[0]}", problems=problems[:6]))
+    return st
+
+
+def report_init() -> None:
+    from rp2verif.props import c13
+
+    c13.init()
+
+
 def plan(tier: str) -> List[Dict[str, Any]]:
     if tier == "quick":
         return [{"name": "3 accounts", "schedules": [((1970, "fifo"),), ((1970, "hifo"),)], "steps": STEPS, "depth": 3, "dev": 0, "group": 1},
@@ -123,6 +205,19 @@ def main(tier: str, budget_s: Optional[float] = None) -> int:
     t0 = time.time()
     deadline = t0 + (budget_s or (240 if tier == "quick" else 3000))
     total, info, complete = run_phases(plan(tier), worker, FIRST, SYMBOLS, EXTRA, deadline)
+    hs = report_histories(tier)
+    nchunks = max(1, min(len(hs), common.NPROC * 8))
+    rres, rdone = common.pmap(report_worker, [hs[i::nchunks] for i in range(nchunks)], deadline=deadline, init=report_init)
+    rtotal = Stats()
+    for r in rres:
+        if r is not None:
+            rtotal.merge(r)
+    total.merge(rtotal)
+    total.inc("evaluations", rtotal.get("report_runs"))
+    total.inc("distinct_nontrivial", rtotal.get("report_multi_holder"))
+    complete = complete and rdone == nchunks
+    info.append({"phase": "report read-back: Account Balances table and per-holder totals of rp2_full_report.ods", "histories": len(hs), "report_runs": rtotal.get("report_runs"),
+                 "runs_with_two_holders": rtotal.get("report_multi_holder"), "chunks_done": rdone, "chunks": nchunks})
     new, matched = common.report(PROP, total.violations)
     coverage = {
         "evaluations": total.get("evaluations"),
@@ -142,7 +237,7 @@ def main(tier: str, budget_s: Optional[float] = None) -> int:
         "samples": total.samples[:5],
     }
     common.write_evidence(PROP, tier, LEVEL, coverage, time.time() - t0, new, assumptions=[
-        "per-holder totals exist only in the report; they are read back from rp2_full_report.ods by C13's oracle, not here",
+        "per-holder totals exist only in the report: the 'Account Balances' table of rp2_full_report.ods is generated and read back for every node of depth <= 2 and the three-account nodes of depth 3",
     ])
     print(f"{PROP} {tier}: evaluations={total.get('evaluations')} nontrivial={total.get('distinct_nontrivial')} violations={total.get('violations_total')} "
           f"(unlisted {new}) exhaustive={complete} wall={time.time() - t0:.1f}s")
@@ -159,6 +254,18 @@ def replay(path: str) -> int:
     with open(path, encoding="utf-8") as f:
         p = json.load(f)
     td = date.fromisoformat(p["to_date"]) if p.get("to_date") else None
+    if p.get("report"):
+        import multiprocessing as mp
+
+        from rp2verif.lotrun import _to_tuple
+
+        with mp.get_context("fork").Pool(1, initializer=report_init) as pool:
+            st = pool.apply(report_worker, ([_to_tuple(p["hist"])],))
+        if st.violations:
+            print(f"VIOLATION property={PROP} replay={path}\n  {st.violations[0]['what']}")
+            return 1
+        print(f"replay: {path}: property {PROP} holds on this case")
+        return 0
     out = C.run_window(p["specs"], [tuple(x) for x in p["schedule"]], None, td, allow_negative_balances=p["allow_negative"])
     problems = [f"{type(out.error).__name__}: {out.error}"] if not out.ok else check_balances(p["specs"], out.computed, td)
     if problems:
